@@ -19,6 +19,7 @@ import (
 	"github.com/massnetorg/mass-core/poc/chiapos"
 	"github.com/massnetorg/mass-core/poc/pocutil"
 	"massnet.org/mass/fractal"
+	"massnet.org/mass/fractal/connection"
 	"massnet.org/mass/fractal/protocol"
 )
 
@@ -173,6 +174,14 @@ func newScenRun(sc *Scen, seed int64, sl *slots, watchdog time.Duration) *scenRu
 	return r
 }
 
+func (r *scenRun) poolOpts() []fractal.CollectorPoolOption {
+	opts := []fractal.CollectorPoolOption{fractal.CollectorPoolListenAddress("127.0.0.1:0")}
+	if us := r.sc.KeepaliveUs; us > 0 {
+		opts = append(opts, fractal.VerifCollectorPoolConnOptions(connection.KeepaliveInterval(time.Duration(us)*time.Microsecond)))
+	}
+	return opts
+}
+
 func (r *scenRun) setup() error {
 	psk, err := chiapos.KeyGen(chiapos.SchemeMPLAug, []byte(fmt.Sprintf("c17-pool-key-%032d", r.seed)))
 	if err != nil {
@@ -186,7 +195,7 @@ func (r *scenRun) setup() error {
 	runsByLS.Store(r.ls, r)
 	r.log.add(Ev{K: "link.up", N: "sup"})
 	r.topTap = newTap(r, r.ls, "", "top")
-	pool, stop, err := fractal.NewCollectorPool(r.ctx, r.topTap, fractal.CollectorPoolListenAddress("127.0.0.1:0"))
+	pool, stop, err := fractal.NewCollectorPool(r.ctx, r.topTap, r.poolOpts()...)
 	if err != nil {
 		return err
 	}
